@@ -1309,6 +1309,10 @@ macro_rules! iter_sub_expr {
                         }
                     }
                     Expression::LitArr { fields, .. } => {
+                        // skip holes: they have no sub-expression, but items may follow them
+                        while let Some(ArrayFieldKind::EmptySlot) = fields.get(self.index) {
+                            self.index += 1;
+                        }
                         let x = fields.$get(self.index)?;
                         self.index += 1;
                         match x {
